@@ -142,6 +142,17 @@ def search(res, tier, seed, deep=False):
                         report("P-same-model", "ISIMIP._step6_get_P_obs_future", dict(kind="P", P_obs=[a, n], P_cm_hist=[b, n], P_cm_future=[c, n]), float(P), "cm_future = cm_hist frequencies but P != observed frequency")
                     if a == b and abs(P - Pf) > 1e-12:
                         report("P-unbiased", "ISIMIP._step6_get_P_obs_future", dict(kind="P", P_obs=[a, n], P_cm_hist=[b, n], P_cm_future=[c, n]), float(P), "cm_hist and obs frequencies equal but P != simulated future frequency")
+    # ... and on windows of several hundred values, where two frequencies can differ by well under a percent
+    for n in (620, 1000, 3650):
+        for _ in range(40 if tier == "quick" else 400):
+            a = r.randint(0, n); b = min(n, max(0, a + r.choice([-6, -3, -1, 1, 2, 5]))); c = r.choice([b, b, r.randint(0, n)])
+            Po, Ph, Pf = a / n, b / n, c / n
+            P = ISIMIP._step6_get_P_obs_future(Po, Ph, Pf)
+            cnt += 1
+            if not (-1e-12 <= P <= 1 + 1e-12) or not np.isfinite(P):
+                report("P-range", "ISIMIP._step6_get_P_obs_future", dict(kind="P", P_obs=[a, n], P_cm_hist=[b, n], P_cm_future=[c, n]), float(P), "adjusted frequency outside [0,1]")
+            if b == c and abs(P - Po) > 1e-12:
+                report("P-same-model", "ISIMIP._step6_get_P_obs_future", dict(kind="P", P_obs=[a, n], P_cm_hist=[b, n], P_cm_future=[c, n]), float(P), "cm_future = cm_hist frequencies but the adjusted frequency is not the observed one")
     res.evaluations += cnt
     res.nontrivial.add(("P-grid", N))
     res.components["P grid"] = dict(triples=cnt, max_denominator=N, exhaustive=True)
